@@ -3,13 +3,17 @@
     a sequence of iterations, each rendered as criterion lines followed by its total line, with
     arbitrary noise lines in between and inside, is returned exactly, in order, one data point
     per iteration (numbered by position 1..k, stamped with the invocation number by construction).
-    Line level (which line shapes the GENERATED expressions classify how): decided by the
-    differential correspondence (the engine against CPython's `re`, render-then-parse on the real
-    adapters for all documented numeral shapes, units, prefixes, CR/LF); the per-format line
-    theorems are not proved in this round - see DESIGN.md, C05 is claimed PARTIAL at line level. *)
+    Line level (which line shapes the GENERATED expressions classify how): proved for SavinaLog
+    and for the two line shapes of TimeAdapter's GNU-time format (C05_line_savina, C05_savina_exact,
+    C05_line_time_rss, C05_line_time_wall: the expression regenerated from the source matches a
+    rendered line with exactly the groups the adapter reads, for names, blanks and numerals of any
+    length); for the other formats (ReBenchLog, PlainSecondsLog, ValidationLog, JMH, time -p) it is
+    decided by the differential correspondence (the engine against CPython's `re`, render-then-parse
+    on the real adapters for all documented numeral shapes, units, prefixes, CR/LF) - C05 stays
+    PARTIAL at line level for those. *)
 From Coq Require Import List NArith Bool.
 Import ListNotations.
-From RV Require Import Lib.Str Lib.Regex Gen.GenRegex Model.Adapters Proofs.AdaptersP.
+From RV Require Import Lib.Str Lib.Regex Gen.GenRegex Model.Adapters Proofs.AdaptersP Proofs.RegexP Proofs.AdapterLinesP.
 
 Theorem C05_fold_exact :
   forall is_err stop classify (items : list (item)),
@@ -26,6 +30,47 @@ Theorem C05_noise_contributes_nothing :
     = finish (rev (flat_map item_dp items) ++ dps).
 Proof. exact loop_items. Qed.
 Print Assumptions C05_noise_contributes_nothing.
+
+(** Line level, SavinaLog: "<name><blanks>Iteration-<n>:<blanks><int>.<frac> ms<anything>" is classified as a
+    complete data point whose value is the printed numeral - for every Unicode classification. *)
+Theorem C05_line_savina :
+  forall U name sp1 ds sp2 ip fp tail,
+    name_ok U name -> blanks sp1 -> digits ds -> blanks sp2 -> digits ip -> digits fp ->
+    sav_classify U (savina_line name sp1 ds sp2 ip fp tail)
+    = LClose [mk_meas s_total s_ms (VFloat (ip ++ [46%N] ++ fp))].
+Proof. exact savina_line_classified. Qed.
+Print Assumptions C05_line_savina.
+
+(** ... and any sequence of such iterations with noise lines anywhere is parsed into exactly one data point
+    per iteration, in order, each with its printed numeral (line level and loop level together). *)
+Theorem C05_savina_exact :
+  forall U faulty (xs : list sav_item),
+    Forall (sav_item_ok U faulty) xs -> flat_map sav_item_dp xs <> [] ->
+    loop (common_err U faulty []) (fun _ => false) (sav_classify U) (map sav_item_line xs) [] []
+    = POk (flat_map sav_item_dp xs).
+Proof. exact savina_iterations_exact. Qed.
+Print Assumptions C05_savina_exact.
+
+(** Line level, TimeAdapter with GNU time's format. *)
+Theorem C05_line_time_rss :
+  forall U ds tail, digits ds -> stops U CDigit tail ->
+    timf_classify U (s_maxrss ++ ds ++ tail) = LAdd [mk_meas s_MaxRSS s_kb (VFloat ds)].
+Proof. exact time_rss_line. Qed.
+Print Assumptions C05_line_time_rss.
+
+Theorem C05_line_time_wall :
+  forall U ip fp tail, digits ip -> digits fp -> stops U CDigit tail ->
+    timf_classify U (s_wall ++ (ip ++ [46%N] ++ fp) ++ tail)
+    = LClose [mk_meas s_total s_ms (VFloatMul1000 (ip ++ [46%N] ++ fp))].
+Proof. exact time_wall_line. Qed.
+Print Assumptions C05_line_time_wall.
+
+(** Non-vacuity of the line theorems: "Fib.x  Iteration-12:\t3.250 ms" and "max rss (kb): 2048". *)
+Example C05_line_example :
+  sav_classify palette (savina_line [70;105;98;46;120] [32;32] [49;50] [9] [51] [50;53;48] [])%N
+    = LClose [mk_meas s_total s_ms (VFloat [51;46;50;53;48]%N)]
+  /\ timf_classify palette (s_maxrss ++ [50;48;52;56] ++ [])%N = LAdd [mk_meas s_MaxRSS s_kb (VFloat [50;48;52;56]%N)].
+Proof. vm_compute. split; reflexivity. Qed.
 
 (** Non-vacuity with the generated ReBenchLog expressions: two iterations, the first with an extra
     criterion, noise before, between and after, CR/LF line ends. *)
